@@ -5,7 +5,7 @@ From Coq Require Import List Arith Bool Lia.
 Import ListNotations.
 From KV Require Import Model.Placement Model.Kfac Model.KfacComm Proofs.KfacCommP.
 From KV Require Import Model.Neox Model.Shard Model.NeoxComm Proofs.NeoxCommP Proofs.NeoxCommDtypeP.
-From KV Require Import Proofs.KfacCommFlushP Proofs.KfacCommDtypeP.
+From KV Require Import Proofs.KfacCommFlushP Proofs.KfacCommDtypeP Proofs.KfacP Proofs.KfacLoadP.
 From KV Require Import Model.Coll Proofs.CollP.   (* last: CollP.steps / finished, not the record field Kfac.steps *)
 
 Section C03.
@@ -127,6 +127,30 @@ Proof.
   intros. split; [apply flush_after_flush_silent_l|]. split; [apply step_ends_with_flush|reflexivity].
 Qed.
 
+(* load_state_dict "on a subset where no collective is implied": a state without factors cannot be inverted, so - whatever
+   compute_inverses says and whatever factors the loading object already holds - the load has no communication event and leaves
+   factors and second-order data alone; a rank that restores its OWN factor-less state changes nothing at all, so the ranks that
+   make the call and those that do not stay in the same state of the control machine *)
+Theorem factorless_load_is_silent : forall cfg hook cks s ck comp c,
+  nth_error cks ck = Some c -> k_factors c = None ->
+  let r := kstep cfg cks s (Load ck comp) in
+  cev_of hook (Load ck comp) (snd r) = [] /\
+  Kfac.inv (fst r) = Kfac.inv s /\ fa (fst r) = fa s /\ fg (fst r) = fg s /\ Kfac.steps (fst r) = k_steps c.
+Proof. exact factorless_load_is_silent_l. Qed.
+
+Theorem own_factorless_state_is_noop : forall cfg s comp,
+  kstep cfg [saved_of s false] s (Load 0 comp) = (s, []).
+Proof. exact own_factorless_state_is_noop_l. Qed.
+
+(* non-vacuity: an object that holds factors and inverses; the same load WITH factors does emit the inverse event *)
+Example factorless_load_example :
+  let s := {| Kfac.steps := 3; fus := HConst 1; ius := HConst 2; mini := 0; a_cnt := 0; g_cnt := 0;
+              fa := FVer 0 [(0,1);(1,1);(2,1)]; fg := FVer 0 [(0,1);(1,1);(2,1)];
+              Kfac.inv := Some {| s_a := FVer 0 [(0,1);(1,1);(2,1)]; s_g := FVer 0 [(0,1);(1,1);(2,1)]; s_step := 2 |} |} in
+  forall cfg, cev_of true (Load 0 true) (snd (kstep cfg [saved_of s false] s (Load 0 true))) = [] /\
+              cev_of true (Load 0 true) (snd (kstep cfg [saved_of s true] s (Load 0 true))) = [CInvLoad].
+Proof. intros s cfg. vm_compute. split; reflexivity. Qed.
+
 (* dtypes: every collective of the generator (hence, by the exact-log tie, of the code) carries the dtype of its event - factor
    allreduces, direct or as a flat bucket, the factor dtype; inverse broadcasts the dtype of the second-order data; gradient
    broadcasts the gradient dtype - on every rank and in the global order alike, so members of a group never disagree on it *)
@@ -212,6 +236,8 @@ Print Assumptions kfac_comm_proj.
 Print Assumptions kfac_never_stalls.
 Print Assumptions queries_silent_at_step_boundary.
 Print Assumptions generator_dtypes.
+Print Assumptions factorless_load_is_silent.
+Print Assumptions own_factorless_state_is_noop.
 Print Assumptions neox_comm_proj.
 Print Assumptions neox_never_stalls.
 Print Assumptions neox_generator_dtypes.
